@@ -17,7 +17,13 @@ import (
 	"govc/vc"
 )
 
-const verifDir = "/verif"
+// verifDir is /verif; GOVC_VERIF_DIR points the tool at a frozen copy (seed re-runs in the background)
+var verifDir = func() string {
+	if d := os.Getenv("GOVC_VERIF_DIR"); d != "" {
+		return d
+	}
+	return "/verif"
+}()
 
 var replayBase string
 
@@ -99,7 +105,7 @@ func cmdCheck(args []string) {
 	prop := fs.String("property", "", "property id")
 	tier := fs.String("tier", "quick", "quick|thorough")
 	repo := fs.String("repo", "/repo", "repository")
-	spec := fs.String("spec", "/verif/spec", "spec library")
+	spec := fs.String("spec", filepath.Join(verifDir, "spec"), "spec library")
 	noEvidence := fs.Bool("no-evidence", false, "do not write the evidence file (used by selftest)")
 	baseline := fs.Bool("write-expected", false, "record the set of stable obligation names as expected")
 	replayDirFlag := fs.String("replay-dir", "", "directory for replay files (default /verif/replays/<id>)")
